@@ -180,7 +180,9 @@ def run_parsers(R, tonic, comp, enabled, tag=''):
         R.saw(sp)
         R.check(any(const_val(sp.origin(a)) == ',' for bb, t in sp.calls(name='split') for a in t['args']), 'C05.R1', 'accept:split-comma' + tag, site(sp), 'split_by_comma splits at ","')
         tr = [c for c in tonic.children(sp) if c.calls(name='trim')]
-        R.check(bool(tr), 'C05.R1', 'accept:trim' + tag, site(sp), 'list items are trimmed')
+        # .. or the function item itself handed to map: `.map(str::trim)`
+        trf = [1 for bb_, t_ in sp.calls(name='map') for a_ in t_['args'] if 'k' in a_ and re.search(r'(^|::)str::trim$|core::str::<impl str>::trim$', a_['k'].get('fn') or '')]
+        R.check(bool(tr) or bool(trf), 'C05.R1', 'accept:trim' + tag, site(sp), 'list items are trimmed')
 
     # is_enabled itself: contains(&Some(encoding)) over self.inner
     with R.guard('C05.R1', 'is_enabled'):
@@ -413,17 +415,27 @@ def run_parsers(R, tonic, comp, enabled, tag=''):
         R.check(len(aggs) == 1, 'C05.R7', 'ctor' + tag, site(b), 'EncodedBytes aggregate sites: %d' % len(aggs))
         for bb, i, p, a, ops in aggs:
             f = a['fields']
-            fo = agg_field_operand(b, a, ops, 'compression_encoding')
+            ENCF = enc_field(tonic, 'codec::encode::EncodedBytes')
+            fo = agg_field_operand(b, a, ops, ENCF)
             if fo is None:
-                raise CheckError('UNRECOGNISED: EncodedBytes::new stores no compression_encoding field (directly or in a sub-struct)')
+                raise CheckError('UNRECOGNISED: EncodedBytes::new stores no %s field (directly or in a sub-struct)' % ENCF)
             ce = mirlib.root_local(b, fo[0])
             ws = writers_of(b, ce)
+            # stored as `effective.map(|encoding| Settings { encoding, .. })`: Some exactly when the effective encoding is
+            for _ in range(2):
+                if len(ws) == 1 and b.term(ws[0])['k'] == 'call' and b.term(ws[0]).get('name') == 'map' and 'Option' in (b.term(ws[0]).get('fn') or '') and b.term(ws[0])['dest']['l'] == ce:
+                    ce = mirlib.root_local(b, b.term(ws[0])['args'][0])
+                    ws = writers_of(b, ce)
             vals = {}
             for wb in ws:
                 w = block_writes(b, wb, ce)
                 g = b.edge_guards(wb)
                 gd = [vals_ for s, vals_, t in g if 'discr(' in show(t) and ('override' in show(t) or 'arg' in show(t))]
                 vals[wb] = (w[0][:3] if w[0][0] == 'variant' else ('term', show(w[0][1])), gd)
+                tw_ = b.term(wb)
+                if tw_['k'] == 'call' and tw_.get('name') == 'map' and 'Option' in (tw_.get('fn') or '') and tw_['dest']['l'] == ce and arg_root(strip_refs(b.origin(tw_['args'][0]))) is not None:
+                    # `encoding_param.map(|encoding| Settings { encoding, .. })`: Some exactly when the parameter is
+                    vals[wb] = (('term', show(b.origin(tw_['args'][0]))), gd)
             none_on_disable = any(v[0][0] == 'variant' and v[0][2] == 'None' for v in vals.values())
             passthrough = any(v[0][0] == 'term' and 'arg' in v[0][1] for v in vals.values())
             R.check(none_on_disable and passthrough and len(ws) == 2, 'C05.R7', 'override-table' + tag, site(b, bb, i), 'stored encoding writers: %r' % vals)
@@ -439,7 +451,7 @@ def run_parsers(R, tonic, comp, enabled, tag=''):
                     R.check(by_discr or by_eq, 'C05.R7', 'none-only-on-disable' + tag, site(b, wb), 'None is stored only when the override equals Disable; guards: %r' % [(v_, show(t)[:80]) for s_, v_, t in g])
             # buffer sizing uses the effective encoding
             for cb_, ct in b.calls(name='is_some'):
-                R.check(mirlib.root_local(b, ct['args'][0]) == ce or 'compression_encoding' in show(b.origin(ct['args'][0])) or mirlib.root_local(b, strip_ref_operand(b, ct['args'][0])) == ce,
+                R.check(mirlib.root_local(b, ct['args'][0]) == ce or ENCF in show(b.origin(ct['args'][0])) or mirlib.root_local(b, strip_ref_operand(b, ct['args'][0])) == ce,
                         'C05.R7', 'buffers-use-effective' + tag, site(b, cb_), 'is_some receiver = %s' % show(b.origin(ct['args'][0])))
 
 
@@ -599,7 +611,7 @@ def run_plumbing(R, tonic, comp, enabled):
         mr = tonic.body('server::grpc::Grpc::<T>::map_response')
         R.saw(mr)
         # the response-encoding parameter of map_response, by type (not by name or position)
-        enc_n = param_of_type(mr, r'Option<.*CompressionEncoding>')
+        enc_n = param_of_type(mr, enc_opt_pat(tonic))
         is_enc_param = lambda t_: (lambda x: x[0] == 'arg' and x[1] == enc_n)(strip_refs(t_))
         for h in handlers:
             co = tonic.body('server::grpc::Grpc::<T>::%s::{closure#0}' % h)
@@ -623,7 +635,7 @@ def run_plumbing(R, tonic, comp, enabled):
         R.floor('C05.R4', 'map_response call sites', n, 4)
         nb, nt = mr.call1(name='new_server')
         ns_ = tonic.body('codec::encode::EncodeBody::<T, U>::new_server')
-        enc_arg = mr.origin(nt['args'][param_of_type(ns_, r'Option<.*CompressionEncoding>') - 1])
+        enc_arg = mr.origin(nt['args'][param_of_type(ns_, enc_opt_pat(tonic)) - 1])
         R.check(is_enc_param(enc_arg), 'C05.R4', 'map_response:encoder-gets-accept_encoding', site(mr, nb), 'EncodeBody::new_server encoding argument = %s' % show(enc_arg))
         ins = [(bb, t) for bb, t in mr.calls(name='insert') if const_val(mr.origin(t['args'][1])) == comp['headers']['encoding'] or (constdef(mr.origin(t['args'][1])) or '').endswith('ENCODING_HEADER')]
         if enabled:
